@@ -2,162 +2,791 @@
 from __future__ import annotations
 
 import copy
+import hashlib
 import json
-from typing import Any, Dict, List
+import os
+import time
+from typing import Any, Dict, List, Optional, Tuple
 
 from harness.extract import episode as x_ep
 from harness.lib import scen
-from harness.lib.core import VERIF, Ctx, Rng, lean_lock, run_driver
+from harness.lib.core import LEAN, VERIF, Ctx, Rng, lean_lock, run_driver
+from harness.rigs import c01_disturb as dist
 from harness.rigs import envrig
 
 MANIFEST = {
     "text": "Lean 4 proof of the episode bookkeeping for EVERY simulator that returns, every agent policy, reward function, duplicate-free "
             "evaluation order and finite action sequence: the tick counter equals the number of steps; every agent has exactly one history "
-            "item per step stamped 0..n-1; truncated is reported iff the number of steps has reached the maximum, terminated never; every "
-            "agent's episode total equals the sum of its saved step rewards; a reset yields tick 0, empty histories and zero totals as a "
-            "function of the episode configuration only (C01_episode_contract and its lemmas). PARTIAL: that the real step/reset return at "
-            "all (no exception, finite reward) is not a theorem - it is checked by the rig R-env, which runs the real environment on "
-            "shipped scenarios and on variants with generated action maps (every action type x existing/missing/powered-off components), "
-            "several episodes with mid-episode resets, comparing the bookkeeping with the model line by line. Tie: the call order of "
-            "step/advance_timestep/apply_agent_actions/update_agents/reset, the truncation comparator (translated from source), the literal "
-            "terminated=False and the single history append are regenerated from source (Gen/Episode.lean, obligation C01_gen_pipeline).",
+            "item per step stamped 0..n-1 and the last item is the one of this step (C01_info_last_item); truncated is reported iff the "
+            "number of steps has reached the maximum, also on steps taken after truncation (C01_truncated_whole_run), terminated never; "
+            "every agent's episode total equals the sum of its saved step rewards; a reset yields tick 0, empty histories and zero totals as "
+            "a function of the episode configuration only (C01_episode_contract and its lemmas); and, with the request layer of C05 as the "
+            "simulator, every history item carries a response with one of the four documented statuses PROVIDED every handler answers with "
+            "a RequestResponse - refusals built by the request manager always do (C01_responses_documented, counterexample "
+            "C01_handler_contract_needed). PARTIAL: that the real step/reset return at all (no exception, finite reward) and that every "
+            "handler keeps its contract is not a theorem - it is checked by the rig R-env, which runs the real environment (a) on shipped "
+            "scenarios and on variants with generated action maps (every action type x existing/missing/powered-off components), several "
+            "episodes with mid-episode resets, runs past truncation and the rest of the public surface (action_masks, spaces, close, reset "
+            "with/without seed and options) in between; (b) on DISTURBED FULL-LENGTH episodes of the shipped scenarios with scripted red "
+            "agents: blue takes one or two actions of its own map at times placed before / inside every kill-chain stage of an undisturbed "
+            "probe episode (quick: the actions whose targets the red agents use, read from the scenario file, capped; thorough: the whole "
+            "action x stage grid); (c) on scenarios with several RL agents through PrimaiteGame driven as PrimaiteRayMARLEnv drives it, and "
+            "on scenarios without an RL agent through PrimaiteGame.step(); (d) on reward configurations with extreme but non-overflowing "
+            "weights; comparing the bookkeeping with the model line by line. Obligation 'scripted agents are total under every response "
+            "history': the real agent classes are driven standalone through C19's driver with bounded-exhaustive failure injection; a raise "
+            "there is a broken obligation and the check then searches the disturbed-episode grid for an episode that realises it (else: "
+            "no-failing-input-found). Tie: the call order of step/advance_timestep/apply_agent_actions/update_agents/reset (gym environment, "
+            "MARL environment, PrimaiteGame.step), the truncation comparator (translated from source), the literal terminated=False, the "
+            "single history append, the fields and the single construction site of AgentHistoryItem and the Literal of "
+            "RequestResponse.status are regenerated from source (Gen/Episode.lean, obligations C01_gen_pipeline, C01_gen_history_item).",
     "note": "C01-specific: Python exceptions inside handlers/observations/rewards and float overflow are outside the model; totality is "
-            "validated by execution only. Scenario families: shipped scenarios x generated action maps and members of the generated topology families (switched LAN, routed, firewall+DMZ) from harness/gen/scenario.py.",
-    "technique": "Lean 4 induction over action sequences on a parametric episode model; regenerated pipeline table; differential env rig",
+            "validated by execution only (one or two blue disturbances per episode, one reset seed per scenario and run). Scenario families: "
+            "shipped scenarios x generated action maps and members of the generated topology families (switched LAN, routed, firewall+DMZ) "
+            "from harness/gen/scenario.py. Reward weights of magnitude 1e308 overflow to inf/nan by IEEE arithmetic: treated as outside the "
+            "property's domain (counted in the evidence, never reported). The RLlib wrappers (PrimaiteRayEnv, PrimaiteRayMARLEnv) cannot be "
+            "imported here (ray.rllib needs dm_tree); their step/reset order is pinned by Gen and mirrored by the rig's own driver.",
+    "technique": "Lean 4 induction over action sequences on a parametric episode model; regenerated pipeline table; differential env rig "
+                 "with disturbed long episodes sharded over worker processes; standalone agent-totality sweep with search",
     "design_ref": "5/C01",
 }
 MODULES = ["PrimaiteModel.Props.C01"]
 EXE = "drv_c01"
 QUICK = ["data_manipulation", "basic_firewall", "test_primaite_session", "wireless_wan_network_config", "uc7_config"]
-# not usable as single-agent gym scenarios: malformed on purpose (bad_*, eval_only: agent_settings null), no nodes, MARL configs with
-# two proxy agents (PrimaiteGymEnv drives only the first; they belong to PrimaiteRayMARLEnv), a config that needs a plug-in node type
-SKIP = {"bad_primaite_session", "no_nodes_links_agents_network", "eval_only_primaite_session", "multi_agent_session",
-        "data_manipulation_marl", "extended_config"}
+QUICK_DISTURB = ["uc7_config", "uc7_config_tap003", "data_manipulation"]
+GRID = ["uc7_config", "uc7_config_tap003", "data_manipulation"]           # thorough: full action x bucket grid
+# not usable as single-agent gym scenarios: malformed on purpose (bad_*, eval_only: agent_settings null), no nodes, a config that needs a
+# plug-in node type.  Scenarios with two proxy agents are driven through the MARL driver instead.
+SKIP = {"bad_primaite_session", "no_nodes_links_agents_network", "eval_only_primaite_session", "extended_config"}
+MARL = ["multi_agent_session", "data_manipulation_marl"]
+CHUNK = 5            # disturbed episodes per unit (one environment, one reset per episode)
+
+_SEGS: List[tuple] = []      # (first line, end line, unit, variant, max_len, marl, scenario_dir, ops) of every play merged so far
 
 
-def _cases(ctx: Ctx):
-    shipped = scen.shipped()
-    names = [n for n in QUICK if n in shipped] if not ctx.thorough else [n for n in shipped if n not in SKIP]
-    rng = ctx.rng.fork("env")
-    for name in names:
+# ================================================================================================ units (executed in workers)
+def _load(name: str) -> Dict:
+    return scen.load_cfg(scen.shipped()[name])
+
+
+def _resolve_cfg(spec: dict) -> Tuple[Optional[Dict], List[str]]:
+    """Build the scenario configuration a unit asks for.  Returns (cfg | None, notes)."""
+    notes: List[str] = []
+    if "cfg" in spec:
+        return copy.deepcopy(spec["cfg"]), notes
+    if "family" in spec:
+        from harness.gen import scenario as gscen
         try:
-            cfg = scen.load_cfg(shipped[name])
-        except Exception:
-            continue
+            cfg = gscen.gen_scenario(spec["rng"].fork("g"), size=spec["size"], family=spec["family"], shadowing=spec["shadowing"])
+        except Exception as e:
+            return None, [f"generator failed for {spec['label']}: {type(e).__name__}: {str(e)[:100]}"]
+        cfg = envrig.with_proxy(cfg)
+    elif "sched_entry" in spec:
+        d, k = spec["sched_entry"]
+        cfg = envrig.schedule_entries(envrig.scheduled_dirs()[d])[k]
+    else:
+        try:
+            cfg = _load(spec["scenario"])
+        except Exception as e:
+            return None, [f"{spec['scenario']}: not loadable: {type(e).__name__}: {str(e)[:100]}"]
         if envrig.proxy_agent_cfg(cfg) is None:
             cfg = envrig.with_proxy(cfg)
-            ctx.count("scenario-given-a-minimal-proxy-agent")
-        else:
-            yield name, "shipped-map", cfg
-        for v in range(ctx.scale(2, 3)):
-            try:
-                aug = envrig.augmented(cfg, rng.fork(f"{name}-aug{v}"), ctx.scale(60, 150))
-            except Exception as e:
-                ctx.notes.append(f"{name}: augmented map not built: {type(e).__name__}: {str(e)[:100]}")
-                aug = None
-            if aug is not None:
-                yield name, f"generated-map-{v}", aug
+            notes.append("scenario-given-a-minimal-proxy-agent")
+    if spec.get("aug"):
+        try:
+            aug = envrig.augmented(cfg, spec["rng"].fork("aug"), spec["aug"])
+        except Exception as e:
+            return None, notes + [f"{spec.get('label')}: augmented map not built: {type(e).__name__}: {str(e)[:100]}"]
+        if aug is None:
+            return None, notes
+        cfg = aug
+    return cfg, notes
 
 
-def _generated(ctx: Ctx):
-    """Members of the generated scenario families (harness/gen/scenario.py: switched LAN, routed, firewall+DMZ)."""
-    from harness.gen import scenario as gscen
-    rng = ctx.rng.fork("gen-scenarios")
-    for k in range(ctx.scale(4, 18)):
-        fam = gscen.FAMILIES[k % len(gscen.FAMILIES)]
-        try:
-            cfg = gscen.gen_scenario(rng.fork(f"g{k}"), size=1 + k % 3, family=fam, shadowing=(k % 2 == 0))
-        except Exception as e:
-            ctx.notes.append(f"generator failed for {fam}#{k}: {type(e).__name__}: {str(e)[:100]}")
-            continue
-        cfg = envrig.with_proxy(cfg)
-        yield f"generated-{fam}-{k}", "own-map", cfg
-        try:
-            aug = envrig.augmented(cfg, rng.fork(f"aug{k}"), ctx.scale(50, 120))
-        except Exception as e:
-            ctx.notes.append(f"generated-{fam}-{k}: augmented map not built: {type(e).__name__}: {str(e)[:100]}")
-            aug = None
-        if aug is not None:
-            yield f"generated-{fam}-{k}", "generated-map-0", aug
+def _dump(cfg: Optional[Dict]) -> str:
+    """Scenario configurations are stored in replays as YAML text: JSON would turn the integer keys (router ports, ACL positions,
+    action numbers) into strings and the scenario would no longer load."""
+    import yaml
+    return yaml.safe_dump(cfg, sort_keys=False)
+
+
+def _cfg_of(rp: dict) -> Dict:
+    import yaml
+    if "cfg_yaml" in rp:
+        return yaml.safe_load(rp["cfg_yaml"])
+    if "shipped" in rp:       # corpus witnesses name the shipped scenario instead of carrying a copy of it
+        return _load(rp["shipped"])
+    return rp["cfg"]
+
+
+def _new_rec(unit: dict) -> dict:
+    return {"label": unit.get("label", ""), "kind": unit["kind"], "lines": [], "impl": [], "viol": [], "hist": {}, "cases": [], "samples": [],
+            "notes": [], "traces": 0, "extra": {}, "wall": 0.0, "segs": []}
+
+
+def _count(rec: dict, key: str, n: int = 1):
+    rec["hist"][key] = rec["hist"].get(key, 0) + n
 
 
 def _sig(f: dict) -> dict:
+    """Narrow identity of a defect: what failed, which exception, raised where (innermost primaite frame).  The blue action of the
+    failing step is in the replay, not in the signature: an exception in a scripted agent or a service surfaces under whatever
+    blue happened to do in that step."""
     sig = {"kind": f["kind"]}
-    for k in ("exc", "action", "where", "agent"):
-        if k in f and k != "agent":
+    for k in ("exc", "where"):
+        if f.get(k) is not None:
             sig[k] = f[k]
     return sig
 
 
+def _absorb(rec: dict, p: envrig.Play, scenario: str, variant: str, cfg: Optional[Dict], max_len: Optional[int], marl: bool = False,
+            scenario_dir: Optional[str] = None, ops_override: Optional[List[Any]] = None, extra_what: str = ""):
+    """Fold one play into the unit's record: model lines, violations with re-executable replays, histogram."""
+    rec["lines"] += p.lines
+    rec["impl"] += p.impl
+    rec["segs"].append((len(p.lines), variant, max_len, marl, scenario_dir, list(p.log)))
+    rec["traces"] += 1
+    for k, v in p.surface.items():
+        _count(rec, "surface:" + k, v)
+    _count(rec, "steps", p.steps)
+    _count(rec, "op:reset", p.resets)
+    for f in p.fails:
+        ops = ops_override if ops_override is not None else f.get("log", p.log)
+        if "exc" in f:
+            what = (f"{scenario}/{variant}: {f['kind']} {f.get('exc', '')} {f.get('msg', '')[:160]} at {f.get('where', '')} "
+                    f"action={f.get('action')} options={f.get('options')} tick={f.get('tick')} {extra_what}")
+        else:
+            det = {k: v for k, v in f.items() if k not in ("kind", "log")}
+            what = f"{scenario}/{variant}: {f['kind']} {det} after {len(ops)} operations {extra_what}"
+        replay = {"kind": "scheduled" if scenario_dir else "env", "scenario": scenario, "variant": variant, "marl": marl, "max_len": max_len,
+                  "ops": ops, "failure": {k: v for k, v in f.items() if k != "log"}}
+        if scenario_dir:
+            replay["scenario_dir"] = scenario_dir
+        else:
+            replay["cfg_yaml"] = _dump(cfg)
+        rec["viol"].append({"sig": _sig(f), "what": what, "replay": replay,
+                            "agent_file": f.get("agent_file"), "kind": f["kind"]})
+
+
+def _scripted_hist(rec: dict, p: envrig.Play, prefix: str):
+    for name, st in p.scripted.items():
+        if st.get("team") != "RED":
+            continue
+        _count(rec, f"{prefix}:red-actions", st["actions"])
+        _count(rec, f"{prefix}:red-actions-not-success", st["not_success"])
+        for stg, n in st["failed_in_stage"].items():
+            _count(rec, f"{prefix}:red-failed-in-stage:{st['type']}:{stg}", n)
+        for shape, n in st["shapes"].items():
+            rec["extra"].setdefault("shapes", {})
+            rec["extra"]["shapes"][shape] = rec["extra"]["shapes"].get(shape, 0) + n
+        if st["stages"]:
+            _count(rec, f"{prefix}:episodes-ending-in:{st['type']}:{st['stages'][-1]}")
+
+
+def _do_case(rec: dict, unit: dict):
+    cfg, notes = _resolve_cfg(unit)
+    for n in notes:
+        if n == "scenario-given-a-minimal-proxy-agent":
+            _count(rec, n)
+        else:
+            rec["notes"].append(n)
+    if cfg is None:
+        return
+    if "scenario-given-a-minimal-proxy-agent" in notes and unit["variant"] == "shipped-map":
+        return      # a scenario shipped without an RL agent has no action map of its own; only the generated maps are run
+    rng: Rng = unit["rng"]
+    max_len = unit["max_len"]
+    ops = envrig.gen_ops(rng.fork("ops"), envrig.n_actions_of(cfg), unit["episodes"], max_len + 3)
+    p = envrig.run_ops(cfg, ops, max_len)
+    _absorb(rec, p, unit["label"], unit["variant"], cfg, max_len)
+    _count(rec, "case:" + unit["variant"].split("-")[0])
+    amap = (envrig.proxy_agent_cfg(cfg) or {}).get("action_space", {}).get("action_map", {})
+    for i, a in enumerate(p.log):
+        if isinstance(a, int):
+            ident = (amap.get(a) or {}).get("action", "?")
+            _count(rec, "action:" + ident)
+            rec["cases"].append((f"{unit['label']}|{unit['variant']}|{i}|{a}", ident != "do-nothing"))
+    rec["samples"].append({"scenario": unit["label"], "variant": unit["variant"], "ops": p.log[:14], "impl": p.impl[2:6]})
+
+
+def _do_sched(rec: dict, unit: dict):
+    path = envrig.scheduled_dirs()[unit["dir"]]
+    p = envrig.run_scheduled(path, unit["rng"], extra_resets=3, steps=unit["steps"])
+    _absorb(rec, p, unit["dir"], "scheduled", None, None, scenario_dir=str(path),
+            extra_what=f"(reset #{(p.raised or {}).get('reset_number')}, schedule length {(p.raised or {}).get('schedule_length')})")
+    _count(rec, "case:scheduled")
+    for i, a in enumerate(p.log):
+        _count(rec, "scheduled-step" if isinstance(a, int) else "scheduled-op")
+        rec["cases"].append((f"{unit['dir']}|{i}|{a}", isinstance(a, int)))
+
+
+def _do_marl(rec: dict, unit: dict):
+    """Scenario with several RL agents, driven through PrimaiteGame as PrimaiteRayMARLEnv does."""
+    try:
+        cfg = _load(unit["scenario"])
+    except Exception as e:
+        rec["notes"].append(f"{unit['scenario']}: not loadable: {type(e).__name__}")
+        return
+    rng: Rng = unit["rng"]
+    sizes = {a["ref"]: len(a.get("action_space", {}).get("action_map", {})) or 1 for a in envrig.proxy_agent_cfgs(cfg)}
+    max_len = unit["max_len"]
+    ops: List[Any] = []
+    for ep in range(unit["episodes"]):
+        ops.append(["reset", rng.below(2 ** 31), None])
+        k = max_len + 3 if ep else rng.range(1, max_len)
+        for _ in range(k):
+            if rng.chance(1, 10):
+                ops.append(["mask"])
+            ops.append({ref: rng.below(n) for ref, n in sizes.items()})
+    p = envrig.run_ops(cfg, ops, max_len, marl=True)
+    _absorb(rec, p, unit["scenario"], "marl", cfg, max_len, marl=True)
+    _count(rec, "case:marl")
+    _count(rec, f"marl:rl-agents:{len(sizes)}")
+    _count(rec, "marl:agents-in-scenario", len(cfg.get("agents", [])))
+    for i, a in enumerate(p.log):
+        if isinstance(a, dict):
+            _count(rec, "marl-step")
+            rec["cases"].append((f"{unit['scenario']}|marl|{i}|{json.dumps(a, sort_keys=True)}", any(v != 0 for v in a.values())))
+    rec["samples"].append({"scenario": unit["scenario"], "variant": "marl", "ops": p.log[:6], "impl": p.impl[2:5]})
+
+
+def _do_game(rec: dict, unit: dict):
+    """Scenario shipped WITHOUT an RL agent, advanced by `PrimaiteGame.step()` itself."""
+    try:
+        cfg = _load(unit["scenario"])
+    except Exception as e:
+        rec["notes"].append(f"{unit['scenario']}: not loadable: {type(e).__name__}")
+        return
+    rng: Rng = unit["rng"]
+    max_len = unit["max_len"]
+    ops: List[Any] = []
+    for ep in range(unit["episodes"]):
+        ops.append(["reset", rng.below(2 ** 31), None])
+        ops += [0] * (max_len + 3 if ep else rng.range(1, max_len))
+    p = envrig.run_ops(cfg, ops, max_len, marl="game")
+    _absorb(rec, p, unit["scenario"], "game.step", cfg, max_len, marl="game")
+    _count(rec, "case:game.step")
+    _count(rec, "game.step:steps", p.steps)
+    _count(rec, "game.step:agents-in-scenario", len(cfg.get("agents", [])))
+    rec["cases"].append((f"{unit['scenario']}|game.step|{len(ops)}", True))
+
+
+def _do_probe(rec: dict, unit: dict):
+    cfg, notes = _resolve_cfg(unit)
+    rec["notes"] += notes
+    if cfg is None:
+        return
+    p, buckets = dist.probe(cfg, unit["seed"])
+    max_len = int((cfg.get("game") or {}).get("max_episode_length", 256))
+    _absorb(rec, p, unit["label"], "undisturbed-probe", cfg, max_len)
+    _scripted_hist(rec, p, "probe")
+    _count(rec, "case:probe")
+    rec["cases"].append((f"{unit['label']}|probe|{unit['seed']}", True))
+    rec["extra"]["buckets"] = buckets
+    rec["extra"]["relevant"] = dist.relevant_actions(cfg)
+    rec["extra"]["n_actions"] = len(dist.blue_map(cfg))
+    rec["extra"]["red_types"] = sorted({a.get("type") for a in dist.red_agents(cfg)})
+    rec["extra"]["probe_ok"] = p.raised is None and p.steps == max_len
+
+
+def _run_episode(env, cfg, ops, max_len, fresh_check: bool, announce: bool = True):
+    """One episode inside a long-lived environment; a failure is re-executed in a FRESH environment so that the replay is
+    the single episode whenever that reproduces it (otherwise the replay is everything this environment has executed)."""
+    p = envrig.play(env, ops, max_len, announce=announce)
+    if p.fails and fresh_check:
+        q = envrig.run_ops(cfg, ops, max_len)
+        if {f["kind"] for f in q.fails} >= {f["kind"] for f in p.fails}:
+            return p, True
+        return p, False
+    return p, True
+
+
+def _do_disturb(rec: dict, unit: dict):
+    cfg, notes = _resolve_cfg(unit)
+    rec["notes"] += notes
+    if cfg is None:
+        return
+    max_len = int((cfg.get("game") or {}).get("max_episode_length", 256))
+    try:
+        env = envrig.make_driver(cfg)
+    except Exception as e:
+        rec["viol"].append({"sig": {"kind": "env-construction-raises", "exc": type(e).__name__}, "what": f"{unit['label']}: constructor raises {e}",
+                            "replay": {"kind": "env", "scenario": unit["label"], "cfg_yaml": _dump(cfg), "ops": [], "marl": False, "max_len": max_len},
+                            "agent_file": None, "kind": "env-construction-raises"})
+        return
+    amap = dist.blue_map(cfg)
+    history: List[Any] = []
+    for it in unit["items"]:
+        ops = dist.episode_ops(cfg, unit["seed"], it["dist"])
+        p, single = _run_episode(env, cfg, ops, max_len, True, announce=not history)
+        history += ops
+        desc = "+".join(f"{amap[a]['action']}@{t}" for t, a in it["dist"])
+        _absorb(rec, p, unit["label"], f"disturbed[{desc}]", cfg, max_len, ops_override=None if single else list(history),
+                extra_what="" if single else "(needs the earlier episodes of the same environment)")
+        _scripted_hist(rec, p, "disturbed")
+        _count(rec, "case:disturbed:" + it["why"].split(":")[0])
+        for b in it["buckets"]:
+            _count(rec, f"disturbed:bucket:{unit['label']}:{b}")
+        for t, a in it["dist"]:
+            _count(rec, "disturbance:" + amap[a]["action"])
+        rec["cases"].append((f"{unit['label']}|disturbed|{unit['seed']}|{it['dist']}", True))
+        rec["extra"].setdefault("episodes", []).append({"dist": it["dist"], "why": it["why"], "buckets": it["buckets"], "steps": p.steps,
+                                                        "raised": (p.raised or {}).get("exc")})
+        if p.raised:     # the environment object may be half-way through a step: start over with a new one
+            try:
+                env = envrig.make_driver(cfg)
+                history = []
+            except Exception:
+                break
+    if unit.get("sample"):
+        rec["samples"].append({"scenario": unit["label"], "variant": "disturbed", "episodes": rec["extra"].get("episodes", [])[:3]})
+
+
+def _do_agents(rec: dict, unit: dict):
+    from harness.rigs import c01_agents as ag
+    import primaite.game.game  # noqa: F401  (registers actions and agents)
+    rng: Rng = unit["rng"]
+    raises: List[dict] = []
+    if unit["family"] == "sweep":
+        r = ag.sweep(unit["agent"], rng, unit["thorough"], unit["n_cfg"], unit["n_pairs"], tuple(unit.get("shard", (0, 1))))
+        raises = r["raises"]
+        _count(rec, f"agents:sweep:{unit['agent']}:configurations whose all-success run does not reach SUCCEEDED (scan attempts exhausted / stage failed)",
+               len(r["notes"]))
+        for k, v in r["hist"].items():
+            _count(rec, "agents:inject:" + k, v)
+        _count(rec, f"agents:sweep:{unit['agent']}:cases", r["cases"])
+        _count(rec, f"agents:sweep:{unit['agent']}:steps", r["steps"])
+        _count(rec, f"agents:sweep:{unit['agent']}:configurations", r["configs"])
+        rec["cases"] += [(f"sweep|{unit['agent']}|{k}", True) for k in r["hist"]]
+        rec["extra"]["evals"] = r["cases"]
+    else:
+        for kind, n in unit["kinds"]:
+            r = ag.c19_family(kind, rng.fork(kind), n)
+            raises += r["raises"]
+            _count(rec, f"agents:c19-family:{kind}:cases", r["cases"])
+            _count(rec, f"agents:c19-family:{kind}:steps", r["steps"])
+            rec["extra"]["evals"] = rec["extra"].get("evals", 0) + r["cases"]
+    rec["traces"] += rec["extra"].get("evals", 0)
+    for x in raises:
+        x["agent_type"] = ag.agent_type_of(x)
+    rec["extra"]["raises"] = raises
+
+
+def _do_rewards(rec: dict, unit: dict):
+    """Reward configurations with extreme weights (harness/rigs/c01_rewards.py)."""
+    from harness.rigs import c01_rewards as rw
+    try:
+        cfg = _load(unit["scenario"])
+    except Exception as e:
+        rec["notes"].append(f"{unit['scenario']}: not loadable: {type(e).__name__}")
+        return
+    for k in range(unit["n"]):
+        mode = "bounded" if k % 3 else "overflow"
+        p, st = rw.run(cfg, unit["rng"].fork(f"r{k}"), mode, unit["episodes"], unit["steps"])
+        _absorb(rec, p, unit["scenario"], f"reward-weights-{mode}-{k}", st["cfg"], unit["steps"] + 5)
+        _count(rec, f"reward-extremes:{mode}:runs")
+        _count(rec, f"reward-extremes:{mode}:steps", p.steps)
+        if mode == "overflow":
+            _count(rec, "reward-extremes:overflow:non-finite-values-seen (out of domain, not reported)", st["non_finite"])
+            _count(rec, "reward-extremes:overflow:runs-that-raised", 1 if p.raised else 0)
+        for w in st["weights"]:
+            _count(rec, f"reward-extremes:weight:{w!r}")
+        rec["cases"].append((f"{unit['scenario']}|rewards|{mode}|{st['weights']}", True))
+
+
+def _do_corpus(rec: dict, unit: dict):
+    w = json.loads(open(unit["file"]).read())
+    rp = w["replay"]
+    _count(rec, "corpus:replayed")
+    rec["cases"].append(("corpus|" + unit["label"], True))
+    if rp.get("kind", "env") == "env":
+        p = envrig.run_ops(_cfg_of(rp), rp["ops"], rp.get("max_len"), marl=rp.get("marl") or False)
+        _absorb(rec, p, rp.get("scenario", unit["label"]), "corpus:" + unit["label"], _cfg_of(rp), rp.get("max_len"), marl=rp.get("marl") or False)
+        _scripted_hist(rec, p, "corpus")
+    elif not replay(w):
+        rec["viol"].append({"sig": w.get("sig", {"kind": "corpus"}), "what": f"corpus witness {unit['label']} fails again: {w.get('what', '')[:200]}",
+                            "replay": rp, "agent_file": None, "kind": "corpus"})
+
+
+KINDS = {"game": _do_game, "corpus": _do_corpus, "rewards": _do_rewards, "case": _do_case, "sched": _do_sched, "marl": _do_marl, "probe": _do_probe, "disturb": _do_disturb, "agents": _do_agents}
+
+
+def _exec_unit(unit: dict) -> dict:
+    t0 = time.time()
+    rec = _new_rec(unit)
+    try:
+        KINDS[unit["kind"]](rec, unit)
+    except Exception:
+        import traceback
+        rec["broken"] = traceback.format_exc()[-1500:]
+    rec["wall"] = time.time() - t0
+    if os.environ.get("C01_PROGRESS"):      # optional progress log (one line per finished unit); never read by the check
+        try:
+            with open(os.environ["C01_PROGRESS"], "a") as fh:
+                fh.write(f"{time.strftime('%H:%M:%S')} {unit['kind']}:{unit.get('label', '')} {rec['wall']:.1f}s viol={len(rec['viol'])}\n")
+        except OSError:
+            pass
+    return rec
+
+
+def _pool_map(units: List[dict], n_workers: int) -> List[dict]:
+    if not units:
+        return []
+    n_workers = max(1, min(n_workers, len(units)))
+    if n_workers == 1:
+        return [_exec_unit(u) for u in units]
+    import multiprocessing as mp
+    order = sorted(range(len(units)), key=lambda i: -units[i].get("weight", 1))     # longest first; results are merged in unit order
+    with mp.get_context("fork").Pool(n_workers, maxtasksperchild=6) as pool:
+        got = pool.map(_exec_unit, [units[i] for i in order], chunksize=1)
+    recs: List[Optional[dict]] = [None] * len(units)
+    for i, r in zip(order, got):
+        recs[i] = r
+    return recs  # type: ignore
+
+
+# ================================================================================================ unit construction
+def _phase1(ctx: Ctx, rng: Rng) -> List[dict]:
+    units: List[dict] = []
+    shipped = scen.shipped()
+    names = [n for n in QUICK if n in shipped] if not ctx.thorough else [n for n in shipped if n not in SKIP and n not in MARL]
+    r_env = rng.fork("env")
+    for name in names:
+        heavy = 30 if name.startswith("uc7") else 6
+        slow = name.startswith("nmap_")       # a scripted agent scans a whole subnet at every step (seconds per step): kept short
+        for v in range(-1, 1 if slow else ctx.scale(2, 3)):
+            variant = "shipped-map" if v < 0 else f"generated-map-{v}"
+            units.append({"kind": "case", "label": name, "scenario": name, "variant": variant, "rng": r_env.fork(name + variant),
+                          "aug": None if v < 0 else ctx.scale(60, 150), "max_len": 7 if slow else r_env.choice([7, 19, 33]),
+                          "episodes": 2 if slow else ctx.scale(3, 4), "weight": 40 if slow else heavy})
+    from harness.gen import scenario as gscen
+    r_gen = rng.fork("gen-scenarios")
+    for k in range(ctx.scale(4, 18)):
+        fam = gscen.FAMILIES[k % len(gscen.FAMILIES)]
+        for variant, aug in (("own-map", None), ("generated-map-0", ctx.scale(50, 120))):
+            units.append({"kind": "case", "label": f"generated-{fam}-{k}", "family": fam, "size": 1 + k % 3, "shadowing": (k % 2 == 0),
+                          "variant": variant, "aug": aug, "rng": r_gen.fork(f"g{k}"), "max_len": r_gen.choice([7, 19, 33]),
+                          "episodes": ctx.scale(3, 4), "weight": 5})
+    for name in envrig.scheduled_dirs():
+        if not ctx.thorough and name.startswith("uc7"):
+            continue  # 20 schedule entries x 34 agents: thorough tier only
+        units.append({"kind": "sched", "label": name, "dir": name, "rng": rng.fork("sched" + name), "steps": ctx.scale(6, 14),
+                      "weight": 60 if name.startswith("uc7") else 8})
+    for name in MARL:
+        if name in shipped:
+            units.append({"kind": "marl", "label": name, "scenario": name, "rng": rng.fork("marl" + name), "max_len": rng.choice([9, 21]),
+                          "episodes": ctx.scale(2, 4), "weight": 6})
+    for name, path in shipped.items():       # scenarios shipped without an RL agent but with scripted ones: PrimaiteGame.step()
+        if name in SKIP:
+            continue
+        try:
+            c = scen.load_cfg(path)
+        except Exception:
+            continue
+        if c.get("agents") and not envrig.proxy_agent_cfgs(c):
+            slow = name.startswith("nmap_")     # a scripted port scan of a whole subnet costs seconds per step: thorough tier only, short
+            if slow and not ctx.thorough:
+                continue
+            units.append({"kind": "game", "label": name, "scenario": name, "rng": rng.fork("game" + name), "max_len": 9 if slow else rng.choice([9, 21]),
+                          "episodes": 2 if slow else ctx.scale(2, 4), "weight": 40 if slow else 3})
+    for name in ("data_manipulation", "shared_rewards"):
+        if name in shipped:
+            units.append({"kind": "rewards", "label": name, "scenario": name, "rng": rng.fork("rew" + name), "n": ctx.scale(6, 30),
+                          "episodes": 2, "steps": ctx.scale(12, 30), "weight": 6})
+    r_ag = rng.fork("agents")
+    shards = ctx.scale(1, 4)      # the thorough sweep (256 / 48 configurations) is spread over several units
+    for kind, n_cfg in (("tap1", 6), ("tap3", 6)):
+        for i in range(shards):
+            units.append({"kind": "agents", "label": f"sweep-{kind}" + (f"-{i}" if shards > 1 else ""), "family": "sweep", "agent": kind,
+                          "rng": r_ag.fork("s" + kind), "thorough": ctx.thorough, "n_cfg": n_cfg, "n_pairs": 12, "shard": (i, shards),
+                          "weight": (40 if kind == "tap1" else 15) if ctx.thorough else 8})
+    n = ctx.scale(150, 1500)
+    units.append({"kind": "agents", "label": "c19-families", "family": "c19", "rng": r_ag.fork("c19"),
+                  "kinds": [("periodic", n), ("prob", n), ("rand", n // 3), ("tap1", n), ("tap3", n)], "weight": 10 if ctx.thorough else 3})
+    # undisturbed probes of the scenarios with scripted red agents
+    for spec in _disturb_scenarios(ctx):
+        units.append({"kind": "probe", **spec, "seed": rng.fork("probe" + spec["label"]).below(2 ** 31),
+                      "weight": 35 if "uc7" in spec["label"] else 10})
+    return units
+
+
+def _disturb_scenarios(ctx: Ctx) -> List[dict]:
+    shipped = scen.shipped()
+    if not ctx.thorough:
+        return [{"label": n, "scenario": n} for n in QUICK_DISTURB if n in shipped]
+    out = []
+    for n, path in shipped.items():
+        if n in SKIP or n in MARL:
+            continue
+        try:
+            cfg = scen.load_cfg(path)
+        except Exception:
+            continue
+        if dist.red_agents(cfg) and len(envrig.proxy_agent_cfgs(cfg)) == 1:
+            out.append({"label": n, "scenario": n})
+    seen = set()
+    for dname, path in envrig.scheduled_dirs().items():
+        try:
+            entries = envrig.schedule_entries(path)
+        except Exception:
+            continue
+        for k, cfg in enumerate(entries):
+            reds = dist.red_agents(cfg)
+            key = json.dumps([a.get("agent_settings") for a in reds], sort_keys=True, default=str) + dname
+            if reds and len(envrig.proxy_agent_cfgs(cfg)) == 1 and key not in seen:
+                seen.add(key)
+                out.append({"label": f"{dname}#{k}", "sched_entry": (dname, k)})
+    return out
+
+
+def _phase2(ctx: Ctx, rng: Rng, probes: List[Tuple[dict, dict]]) -> List[dict]:
+    units: List[dict] = []
+    for unit, rec in probes:
+        ex = rec.get("extra", {})
+        if not ex.get("buckets") or not ex.get("probe_ok"):
+            continue
+        spec = {k: unit[k] for k in ("label", "scenario", "sched_entry") if k in unit}
+        cfg, _ = _resolve_cfg(spec)
+        if cfg is None:
+            continue
+        r = rng.fork("plan" + unit["label"])
+        big = "uc7" in unit["label"]
+        if ctx.thorough:
+            if unit["label"] in GRID:       # every action of the map in every bucket, plus pairs
+                items = dist.plan(cfg, ex["buckets"], r, True, n_sample=0, n_pairs=12, cap=280 if big else 420)
+            else:                           # the other scenarios: relevant action x bucket cells (a seeded sample of 24), a few others, pairs
+                rel = set(ex["relevant"])
+                cells = [it for it in dist.plan(cfg, ex["buckets"], r, True, 0, 0, cap=10 ** 6) if it["dist"][0][1] in rel]
+                items = r.shuffle(cells)[:24]
+                items += [it for it in dist.plan(cfg, ex["buckets"], r.fork("s"), False, 4, 3, cap=0)]
+        else:
+            # quick: the relevant actions (capped; different action types first), a few of the others, a few pairs
+            n_rel = len(ex.get("relevant") or [])
+            cap = min(n_rel, 14 if n_rel <= 24 else 10) if big else 12
+            items = dist.plan(cfg, ex["buckets"], r, False, n_sample=2, n_pairs=2, cap=cap)
+        chunk = CHUNK if ctx.thorough else 3
+        for i in range(0, len(items), chunk):
+            units.append({"kind": "disturb", **spec, "seed": unit["seed"], "items": items[i:i + chunk], "sample": i == 0,
+                          "weight": (14 if big else 5) * len(items[i:i + chunk])})
+    return units
+
+
+# ================================================================================================ replay
+def _model_diff(lines: List[str], impl: List[str]) -> List[Tuple[int, str, str, str]]:
+    model = run_driver(EXE, lines) if lines else []
+    bad = [(i, q, a, b) for i, (q, a, b) in enumerate(zip(lines, impl, model)) if a != b]
+    if len(model) != len(impl):
+        bad.append((min(len(model), len(impl)), "<length>", str(len(impl)), str(len(model))))
+    return bad
+
+
 def replay(rec: dict) -> bool:
     rp = rec["replay"]
-    if "scenario_dir" in rp:
+    kind = rp.get("kind", "env")
+    if kind == "agent-obligation":
+        from harness.rigs import c01_agents as ag
+        import primaite.game.game  # noqa: F401
+        x = rp["raise"]
+        if x.get("inject") is not None and x.get("agent") in ("tap1", "tap3"):
+            r = ag.drive(x["agent"], x["case"], {int(k): tuple(v) for k, v in x["inject"].items()}, 90,
+                         us=[tuple(u) for u in x["us"]] if x.get("us") else None)
+            return r["raise"] is None
+        from harness.rigs import agents as c19rig
+        impl, _, _ = c19rig.run_impl(x["case"])
+        return not any(l.startswith("raised") for l in impl)
+    if kind == "scheduled" or "scenario_dir" in rp:
         from primaite.session.environment import PrimaiteGymEnv
-        env = PrimaiteGymEnv(env_config=rp["scenario_dir"])
-    else:
-        env = scen.make_env(copy.deepcopy(rp["cfg"]))
-    try:
-        for a in rp["log"]:
-            if a == "reset":
-                env.reset(seed=rp.get("seed"))
-            else:
-                env.step(a)
-    except Exception:
+        try:
+            env = PrimaiteGymEnv(env_config=rp["scenario_dir"])
+        except Exception:
+            return False
+        p = envrig.replay_scheduled(env, rp.get("ops", rp.get("log", [])))
+        if p.fails:
+            return False
+        return not ((LEAN / ".lake" / "build" / "bin" / EXE).exists() and _model_diff(p.lines, p.impl))
+    ops = rp.get("ops")
+    if ops is None:      # records written by the first version of the check: "reset" entries without a seed
+        ops = [["reset", rp.get("seed"), None] if a == "reset" else a for a in rp.get("log", [])]
+    p = envrig.run_ops(_cfg_of(rp), ops, rp.get("max_len"), marl=rp.get("marl") or False)
+    if p.fails:
+        return False
+    exe = LEAN / ".lake" / "build" / "bin" / EXE
+    if exe.exists() and _model_diff(p.lines, p.impl):
         return False
     return True
 
 
+# ================================================================================================ the check
+def _merge(ctx: Ctx, units: List[dict], recs: List[dict], all_lines: List[str], all_impl: List[str], env_viol: List[dict]):
+    for u, r in zip(units, recs):
+        if r.get("broken"):
+            ctx.oblige(f"rig: unit {u['kind']}:{u.get('label', '')} ran", "correspondence", False, r["broken"])
+        for k, v in r["hist"].items():
+            ctx.count(k, v)
+        for c, nt in r["cases"]:
+            ctx.case(c, nt)
+        if r["extra"].get("evals"):
+            ctx.cov["evaluations"] += r["extra"]["evals"]
+        ctx.cov["traces_validated_against_impl"] += r["traces"]
+        ctx.notes += r["notes"]
+        for s in r["samples"]:
+            ctx.sample(s, cap=8)
+        for v in r["viol"]:
+            ctx.violation(v["sig"], v["what"], v["replay"])
+            env_viol.append(v)
+        at = len(all_lines)
+        for n_lines, variant, max_len, marl, sdir, ops in r.get("segs", []):
+            _SEGS.append((at, at + n_lines, u, variant, max_len, marl, sdir, ops))
+            at += n_lines
+        all_lines += r["lines"]
+        all_impl += r["impl"]
+        for shape, n in (r["extra"].get("shapes") or {}).items():
+            ctx.cov.setdefault("red_response_shapes_seen", {})
+            ctx.cov["red_response_shapes_seen"][shape] = ctx.cov["red_response_shapes_seen"].get(shape, 0) + n
+
+
+def _agent_file(agent_type: str) -> Optional[str]:
+    return {"tap-001": "TAP001.py", "tap-003": "TAP003.py", "periodic-agent": "random_agent.py", "random-agent": "random_agent.py",
+            "red-database-corrupting-agent": "data_manipulation_bot.py", "probabilistic-agent": "probabilistic_agent.py"}.get(agent_type)
+
+
+def _search(ctx: Ctx, rng: Rng, raises: List[dict], probes: List[Tuple[dict, dict]], env_viol: List[dict], n_workers: int,
+            all_lines: List[str], all_impl: List[str]) -> Dict[str, Any]:
+    """DESIGN 3.5 for the obligation 'scripted agents are total': realise the failing response history in the real environment."""
+    found: Dict[str, Any] = {}
+    groups: Dict[Tuple[str, str], dict] = {}
+    for x in raises:
+        groups.setdefault((x["agent_type"], x.get("stage") or "?"), x)
+    budget = ctx.scale(30, 160)
+    for (atype, stage), x in groups.items():
+        key = f"{atype}:{stage}"
+        hit = next((v for v in env_viol if v.get("agent_file") and v["agent_file"] == _agent_file(atype)), None)
+        if hit is not None:
+            found[key] = "already realised by the disturbed episodes: " + hit["what"][:160]
+            continue
+        for unit, rec in probes:
+            ex = rec.get("extra", {})
+            if atype not in (ex.get("red_types") or []) or not ex.get("buckets"):
+                continue
+            spec = {k: unit[k] for k in ("label", "scenario", "sched_entry") if k in unit}
+            cfg, _ = _resolve_cfg(spec)
+            if cfg is None:
+                continue
+            items = dist.search_plan(cfg, ex["buckets"], rng.fork("search" + key + unit["label"]), stage, budget)
+            ctx.count(f"search:{key}:episodes-planned", len(items))
+            step = max(1, n_workers) * 2
+            for i in range(0, len(items), step):
+                us = [{"kind": "disturb", **spec, "seed": unit["seed"], "items": [it], "weight": 1} for it in items[i:i + step]]
+                recs = _pool_map(us, n_workers)
+                before = len(env_viol)
+                _merge(ctx, us, recs, all_lines, all_impl, env_viol)
+                ctx.count(f"search:{key}:episodes-run", len(us))
+                hit = next((v for v in env_viol[before:] if v.get("agent_file") == _agent_file(atype)), None)
+                if hit is not None:
+                    found[key] = "realised by search: " + hit["what"][:160]
+                    break
+            if key in found:
+                break
+    return found
+
+
 def run(ctx: Ctx):
+    del _SEGS[:]
     with lean_lock():
         ctx.extract("Episode", x_ep.emit)
         ctx.prove(MODULES, exes=[EXE], leanchecker=ctx.thorough)
-    ctx.cov["rule"] = ("cases = shipped scenario x {shipped action map, generated action maps over every registered action type with existing, "
-                       "missing and powered-off targets} x 2-3 episodes with a mid-episode reset and a run past truncation; every step is one "
-                       "evaluation; non-trivial = every step whose action is not do-nothing; distinct by (scenario, variant, action log prefix)")
+    ctx.cov["rule"] = ("cases = (a) shipped scenario x {shipped action map, generated action maps over every registered action type with existing, "
+                       "missing and powered-off targets} x 2-4 episodes with a mid-episode reset, a run past truncation and public-surface calls "
+                       "in between, every step one evaluation, non-trivial = action is not do-nothing; (b) disturbed full-length episodes "
+                       "(scenario with red agents x one or two blue actions x time bucket of the undisturbed probe), one evaluation per "
+                       "episode, all non-trivial, the steps are counted in the histogram; (c) MARL steps; (d) standalone agent cases "
+                       "(configuration x injected outcomes), one evaluation each; distinct by canonical string")
+    n_workers = int(os.environ.get("C01_WORKERS", "0") or 0) or ctx.scale(4, 8)
+    n_workers = max(1, min(n_workers, os.cpu_count() or 2))
+    ctx.cov["worker_processes"] = n_workers
+    rng = ctx.rng.fork("run")
+    import primaite.game.game  # noqa: F401  (loaded before the fork so that the workers share it)
+    import primaite.session.environment  # noqa: F401
     all_lines: List[str] = []
     all_impl: List[str] = []
-    rng = ctx.rng.fork("run")
-    import itertools
-    for name, variant, cfg in itertools.chain(_cases(ctx), _generated(ctx)):
-        max_len = rng.choice([7, 19, 33])
-        lines, impl, fails, log = envrig.run_case(cfg, rng.fork(name + variant), episodes=ctx.scale(3, 4),
-                                                  steps_per_episode=max_len + 3, max_len=max_len)
-        ctx.count("case:" + variant.split("-")[0])
-        ctx.cov["traces_validated_against_impl"] += 1
-        amap = (envrig.proxy_agent_cfg(cfg) or {}).get("action_space", {}).get("action_map", {})
-        for i, a in enumerate(log):
-            if a == "reset":
-                ctx.count("op:reset")
-                continue
-            ident = (amap.get(a) or {}).get("action", "?")
-            ctx.count("action:" + ident)
-            ctx.case({"sc": name, "v": variant, "i": i, "a": a}, ident != "do-nothing")
-        for f in fails:
-            ctx.violation(_sig(f), f"{name}/{variant}: {f['kind']} {f.get('exc', '')} {f.get('msg', '')[:160]} action={f.get('action')} "
-                          f"options={f.get('options')}", {"scenario": name, "variant": variant, "cfg": cfg, "log": f.get("log", log), "failure": {k: v for k, v in f.items() if k != 'log'}})
-        all_lines += lines
-        all_impl += impl
-        ctx.sample({"scenario": name, "variant": variant, "log": log[:20], "impl": impl[2:6]}, cap=4)
-    for name, path in envrig.scheduled_dirs().items():
-        if not ctx.thorough and name.startswith("uc7"):
-            continue  # 20 schedule entries x 34 agents: thorough tier only
-        lines, impl, fails, log = envrig.run_scheduled(path, rng.fork("sched" + name), extra_resets=3, steps=ctx.scale(6, 14))
-        ctx.count("case:scheduled")
-        ctx.cov["traces_validated_against_impl"] += 1
-        for i, a in enumerate(log):
-            ctx.count("op:reset" if a == "reset" else "scheduled-step")
-            ctx.case({"sc": name, "i": i, "a": a}, a != "reset")
-        for f in fails:
-            ctx.violation(_sig(f), f"scheduled scenario {name}: {f['kind']} {f.get('exc', '')} {f.get('msg', '')[:160]} "
-                          f"(reset #{f.get('reset_number')}, schedule length {f.get('schedule_length')})",
-                          {"scenario_dir": str(path), "log": f.get("log", log), "failure": {k: v for k, v in f.items() if k != "log"}})
-        all_lines += lines
-        all_impl += impl
-    model = run_driver(EXE, all_lines) if all_lines else []
-    bad = [(i, q, a, b) for i, (q, a, b) in enumerate(zip(all_lines, all_impl, model)) if a != b]
-    for i, q, a, b in bad[:5]:
+    env_viol: List[dict] = []
+    walls: Dict[str, float] = {}
+
+    # ---- corpus: stored witnesses are replayed on every run (as units of the first phase)
+    t0 = time.time()
+    units1 = [{"kind": "corpus", "label": f.name, "file": str(f), "weight": 40} for f in sorted((VERIF / "corpus" / "C01").glob("*.json"))]
+    units1 += _phase1(ctx, rng)
+    recs1 = _pool_map(units1, n_workers)
+    _merge(ctx, units1, recs1, all_lines, all_impl, env_viol)
+    ctx.cov["phase1_wall_s"] = round(time.time() - t0, 1)
+    probes = [(u, r) for u, r in zip(units1, recs1) if u["kind"] == "probe"]
+    ctx.cov["disturbed_scenarios"] = {u["label"]: {"buckets": r["extra"].get("buckets"), "relevant_actions": r["extra"].get("relevant"),
+                                                   "actions": r["extra"].get("n_actions"), "red": r["extra"].get("red_types")}
+                                      for u, r in probes}
+    for u, r in probes:
+        ctx.oblige(f"rig: undisturbed probe of {u['label']} ran to max_episode_length", "correspondence", bool(r["extra"].get("probe_ok")) or bool(r["viol"]),
+                   "probe did not complete")
+    t0 = time.time()
+    units2 = _phase2(ctx, rng, probes)
+    if os.environ.get("C01_SKIP_DISTURBED"):      # test hook of the search protocol only: pretend the planned episodes found nothing
+        ctx.notes.append(f"C01_SKIP_DISTURBED set: {len(units2)} planned units of disturbed episodes were NOT run")
+        units2 = []
+        units1 = [u for u in units1]
+    recs2 = _pool_map(units2, n_workers)
+    _merge(ctx, units2, recs2, all_lines, all_impl, env_viol)
+    ctx.cov["phase2_wall_s"] = round(time.time() - t0, 1)
+    ctx.cov["units"] = {"phase1": len(units1), "phase2": len(units2)}
+    for u, r in list(zip(units1, recs1)) + list(zip(units2, recs2)):
+        walls[f"{u['kind']}:{u.get('label', '')}"] = round(walls.get(f"{u['kind']}:{u.get('label', '')}", 0) + r["wall"], 1)
+    ctx.cov["unit_wall_s"] = dict(sorted(walls.items(), key=lambda kv: -kv[1])[:25])
+
+    # ---- obligation: the scripted agents are total under every response history (C19's standalone driver)
+    raises = [x for u, r in zip(units1, recs1) if u["kind"] == "agents" for x in r["extra"].get("raises", [])]
+    from harness.rigs import c01_agents as ag
+    ctx.cov["agent_response_alphabet"] = ag.response_shapes_assumed()
+    by_type: Dict[str, List[dict]] = {}
+    for x in raises:
+        by_type.setdefault(x["agent_type"], []).append(x)
+    for atype in sorted(set(ag.AGENT_TYPE.values())):
+        xs = by_type.get(atype, [])
+        detail = ""
+        if xs:
+            x = xs[0]
+            detail = (f"{len(xs)} synthetic response histories make {atype} raise; first: {x.get('exc')} {x.get('msg', '')[:120]} in {x.get('phase')} "
+                      f"at {x.get('where')} (stage {x.get('stage')}/{x.get('progress')}, previous action {x.get('prev_action')} answered "
+                      f"{x.get('prev_status')}); injected outcomes {x.get('inject')}; settings "
+                      f"{ {k: v for k, v in (x.get('case') or {}).items() if k != 'steps'} }")
+        ctx.oblige(f"agents-total:{atype} (get_action/format_request/process_action_response never raise, every response history)",
+                   "correspondence", not xs, detail)
+    if raises:
+        t0 = time.time()
+        found = _search(ctx, rng.fork("search"), raises, probes, env_viol, n_workers, all_lines, all_impl)
+        ctx.cov["search"] = {"found": found, "wall_s": round(time.time() - t0, 1),
+                             "obligations_without_a_realising_episode": sorted({f"{x['agent_type']}:{x.get('stage') or '?'}" for x in raises} - set(found))}
+        for x in raises[:3]:
+            ctx.sample({"agent-obligation-broken": {k: v for k, v in x.items() if k not in ("case", "stack")}}, cap=10)
+        # keep the standalone witnesses re-executable as well
+        ctx.cov["agent_raise_witnesses"] = [{"kind": "agent-obligation", "raise": {k: x.get(k) for k in ("agent", "case", "inject", "us", "exc", "stage")}}
+                                            for x in list(by_type.values())[0][:2]]
+
+    # ---- the alphabet of synthetic responses covers what the simulator really answered red actions with
+    seen = ctx.cov.get("red_response_shapes_seen", {})
+    ctx.cov["red_response_shapes_seen"] = dict(sorted(seen.items(), key=lambda kv: -kv[1])[:60])
+
+    # ---- bookkeeping against the proved model
+    bad = _model_diff(all_lines, all_impl)
+    reported = set()
+    for i, q, a, b in bad:
+        seg = next((sg for sg in _SEGS if sg[0] <= i < sg[1]), None)
+        if seg is None or id(seg) in reported or len(reported) >= 5:
+            continue
+        reported.add(id(seg))
+        _, _, u, variant, max_len, marl, sdir, ops = seg
+        rp: Dict[str, Any] = {"kind": "scheduled" if sdir else "env", "scenario": u.get("label"), "variant": variant, "marl": marl,
+                              "max_len": max_len, "ops": ops, "model_diff": {"line_index": i - seg[0], "op": q, "impl": a, "model": b}}
+        if sdir:
+            rp["scenario_dir"] = sdir
+        else:
+            rp["cfg_yaml"] = _dump(_resolve_cfg({k: v for k, v in u.items() if k in ("label", "scenario", "sched_entry", "family", "size", "shadowing", "rng", "aug")})[0])
         ctx.violation({"kind": "bookkeeping-differs-from-model", "op": q.split()[0]},
-                      f"episode bookkeeping after `{q}`: impl {a!r} vs proved model {b!r}", {"line_index": i, "op": q, "impl": a, "model": b,
-                                                                                            "context": all_lines[max(0, i - 10):i + 1]})
-    ctx.oblige("rig:R-env bookkeeping agrees with the model at every step", "correspondence", not bad and len(model) == len(all_impl),
-               f"{len(bad)} of {len(all_impl)} lines differ")
+                      f"{u.get('label')}/{variant}: episode bookkeeping after `{q}`: impl {a!r} vs proved model {b!r}", rp)
+    ctx.oblige("rig:R-env bookkeeping agrees with the model at every step", "correspondence", not bad, f"{len(bad)} of {len(all_impl)} lines differ")
